@@ -110,7 +110,7 @@ func init() {
 func init() {
 	properties["C19"] = Property{
 		Level: "exploration",
-		Rule:  "one case = (operation, protection state, caller, state kind, generated initial content): 25 operations (direct, from RunJavascript, from a rule action) x {none, writeKey, readKey, both, readOnly, disabled} x {no key, wrong key, right key} x {indexed, linear}; refused => error and identical raw storage and live items; allowed => same result and resulting state as an unprotected twin; non-trivial = protection state != none; distinct by (state, protection, caller, op, content seed)",
+		Rule:  "one case = (operation, protection state, caller, state kind, generated initial content): 26 operations (direct, from RunJavascript, from a rule action, the removal of a one-shot scheduled rule at the end of its triggered run) x {none, writeKey, readKey, both, readOnly, disabled} x {no key, wrong key, right key} x {indexed, linear}; refused => error and identical raw storage and live items; allowed => same result and resulting state as an unprotected twin; second matrix: 8 inherited reads (search, list and search rules, query, JS search/query, event dispatch, a child rule whose condition reads the parent) issued at an unprotected child whose PARENT is {unprotected, read key, both keys, write key, disabled} x callers x states: without the parent's read key nothing of the parent is revealed, an error is reported and both storages are unchanged; non-trivial = protection state != none; distinct by (state, protection, caller, op, content seed)",
 		Floor: [2]int{200, 2000},
 		Assumptions: []string{"the matrix of DESIGN §5 C19: write operations need the write key / are refused when read-only; operations that reveal facts or rules need the read key; a disabled location refuses everything; RuleEnabled/GetParents/SetProp/StateSize-when-disabled are outside the matrix"},
 		Stages: []Stage{{Name: "matrix", Pkg: "./mon/c19", Procs: 2, Batches: [2]int{4, 8}, TimeoutS: [2]int{900, 3600}}},
@@ -167,9 +167,9 @@ func init() {
 func init() {
 	properties["C20"] = Property{
 		Level: "exploration",
-		Rule:  "cases: (a) one add/remove history of 8-23 steps around MaxFacts in 1..6 on ids max+2 wide (facts, rules, overwrites at the boundary), both states, plus rounds of 8 concurrent adders; (b) one breaker run: limit 1-20, interval 40-400 ms, 1-16 concurrent callers, arrival patterns burst+slow poll / burst+fast poll (faster than interval/20) / steady / random over 3 intervals, every Zap logged with [before, after] and checked offline for the sliding-window bound and for recovery; (c) one throttle run: 8-63 submitters, pending limit 1-4; non-trivial = the limit was reached (an add refused / a poll refused / a submission overflowed); distinct by the run's parameters and history",
+		Rule:  "cases: (a) one add/remove history of 8-23 steps around MaxFacts in 1..6 on ids max+2 wide (facts, rules, overwrites at the boundary), both states, plus rounds of 8-15 concurrent adders (facts only / rules only / mixed; every other round starts one below the maximum); (b) one breaker run: limit 1-20, interval 40-400 ms, 1-16 concurrent callers, arrival patterns burst+slow poll / burst+fast poll (faster than interval/20) / steady / random over 3 intervals, every Zap logged with [before, after] and checked offline for the sliding-window bound and for recovery; (c) one throttle run: 8-63 submitters, pending limit 1-4, Pending() sampled and, independently, the submissions seen waiting at one instant counted by a probe around the throttle's breaker (a submission is certainly waiting between its first and its last attempt); non-trivial = the limit was reached (an add refused / a poll refused / a submission overflowed); distinct by the run's parameters and history",
 		Floor: [2]int{30, 300},
-		Assumptions: []string{"breaker verdicts use only interval arithmetic on monotonic [before, after] stamps: a rate violation needs limit+1 admissions with max(after)-min(before) < interval; a recovery violation needs a refused poll whose `before` is later than every earlier admission's `after` + interval + 2 ticks", "a starved period in which every gap between consecutive polls is shorter than interval/20 is the open finding c20.breaker-fast-poll-starvation"},
+		Assumptions: []string{"breaker verdicts use only interval arithmetic on monotonic [before, after] stamps: a rate violation needs limit+1 admissions with max(after)-min(before) < interval; a recovery violation needs a refused poll whose `before` is later than every earlier admission's `after` + interval + 2 ticks", "a starved period in which every gap between consecutive polls is shorter than interval/20 is the open finding c20.breaker-slide-drops-remainder"},
 		Stages: []Stage{
 			{Name: "capacity", Pkg: "./mon/c20", Race: true, Procs: 4, Batches: [2]int{2, 4}, TimeoutS: [2]int{900, 3600}},
 			{Name: "breaker", Pkg: "./mon/c20", Race: true, Procs: 4, Batches: [2]int{4, 8}, TimeoutS: [2]int{900, 3600}},
@@ -230,7 +230,7 @@ func init() {
 func init() {
 	properties["C16"] = Property{
 		Level: "exploration",
-		Rule:  "one case = one job life (add -> fire / remove / replace) in a recorded run; in-memory cron: 10 runs per round in parallel (directed patterns: remove the head and stay quiet, replace the head by a later time, add earlier than the head, add during suspension, pause, remove a recurring job during its run, recurring + one-shot; and random mixes over 4 ids with due 50-800 ms, removals, suspend/resume/pause windows, slow callbacks), Timeline walked under the cron's lock at quiescent points; Bolt-backed cron (overlay test in package main): operation sequences with harness-driven work() ticks, fires observed as hits on an httptest server, jobs<p>/time<p> buckets compared key for key after every operation and after every close/reopen; non-trivial = the job was replaced, removed, or overlapped a suspend/pause window (crolt: was deleted, duplicated or lived across a reopen); distinct by (run seed, pattern, job id, generation)",
+		Rule:  "one case = one job life (add -> fire / remove / replace) in a recorded run; in-memory cron: 13 runs per round in parallel (directed patterns: remove the head and stay quiet, replace the head by a later time, add earlier than the head, add during suspension, pause, remove a recurring job during its run, replace a recurring job (or remove and re-add it) so that old and new callback run at the same time and the old one returns first, recurring + one-shot; and random mixes over 4 ids with due 50-800 ms, removals, suspend/resume/pause windows, slow callbacks), Timeline walked under the cron's lock at quiescent points; Bolt-backed cron (overlay test in package main): operation sequences with harness-driven work() ticks, fires observed as hits on an httptest server, jobs<p>/time<p> buckets compared key for key after every operation and after every close/reopen; then a concurrent phase: a goroutine loops over the work() transactions of all partitions against an endpoint that holds each request open 40-120 ms while Add/Delete/Get run, with Deletes issued at the moment a request of that job is in flight (no request after Delete returned, none before due, recurring not more often than its occurrences, buckets compared at quiescent points); non-trivial = the job was replaced, removed, or overlapped a suspend/pause window (crolt: was deleted, duplicated or lived across a reopen); distinct by (run seed, pattern, job id, generation)",
 		Floor: [2]int{30, 100},
 		Assumptions: []string{"no-early-fire and no-fire-after-Rem are judged on monotonic call/return stamps; 'fires when due' is bounded progress (due + 1.5 s, outside suspend/pause windows) judged only when a canary timer was on time", "crolt: a job's due time is the time in its own TId key (jitter set to 0)"},
 		Stages: []Stage{
@@ -244,7 +244,7 @@ func init() {
 func init() {
 	properties["C17"] = Property{
 		Level: "exploration",
-		Rule:  "cases: (twin) one request of a generated history over 3 locations executed under TTL {never, 1 ms, forever} x CheckExistence {off, on} x state {indexed, linear} and directly on core.Locations, all results compared; with existence checking also requests to a never-created location (must fail, no trace in storage or cache); (first) one round of 8 concurrent first requests with seeded delays in sys.open.gap / sys.storage.gap, every fourth round a forced schedule (first opener parked in the gap); (overlap) one recorded register history of 3-5 overlapping clients under TTL never with requests held open by a sleeping action, checked per key by porcupine; non-trivial = the configurations differ in TTL and a location was re-opened (twin), always for first/overlap; distinct by (seed, history, configuration, request index)",
+		Rule:  "cases: (twin) one request of a generated history over 3 locations executed under TTL {never, 1 ms, forever} x CheckExistence {off, on} x state {indexed, linear} and directly on core.Locations, all results compared (histories include `!cacheTTL` property facts with numeric and non-numeric values and clearing a location); with existence checking also requests to a never-created location (must fail, no trace in storage or cache); (first) one round of 8 concurrent first requests with seeded delays in sys.open.gap / sys.storage.gap, every fourth round a forced schedule (first opener parked in the gap); (overlap) one recorded register history of 3-5 overlapping clients under TTL never with requests held open by a sleeping action, checked per key by porcupine; non-trivial = the configurations differ in TTL and a location was re-opened (twin), always for first/overlap; distinct by (seed, history, configuration, request index)",
 		Floor: [2]int{40, 400},
 		Assumptions: []string{"load counts are read from GetStats().NewLocations and storage through PeekStorage (System offers no storage injection)", "the directly operated locations get the same cron hooks as the System wires (they make removing an absent id an error)"},
 		Stages: []Stage{
@@ -258,7 +258,7 @@ func init() {
 func init() {
 	properties["C18"] = Property{
 		Level: "exploration",
-		Rule:  "one case = (logical request of a generated history over the /api/loc/* family, rendering) with renderings {query parameters with /api, without /api, with a /v1.0 prefix, form body, JSON body, /api/json envelope, /api/yaml, element of /api/sys/util/batch}, each rendering on its own fresh engine, compared (status and normalised JSON result) with service.ProcessRequest called directly; arguments include strings that need URL/JSON/YAML escaping (in values, ids and location names); plus negative cases (each required parameter missing, ill-typed parameters, unknown URI, failing operations) through every rendering that can express them; non-trivial = the rendering is not the direct call and an argument needs escaping, or the case is negative; distinct by (seed, history, request index, rendering)",
+		Rule:  "one case = (logical request of a generated history over the /api/loc/* family, rendering) with renderings {query parameters with /api, without /api, with a /v1.0 prefix, form body (with and without /api), JSON body (also under /v1.0/api), YAML body sniffed at the operation URI, /api/json envelope and /api/yaml and ProcessRequest with the uri spelled /api.., without /api, with a version prefix, element of /api/sys/util/batch under each spelling, and the whole history as one batch with the spelling varied per element}, each rendering on its own fresh engine, compared (status and normalised JSON result) with service.ProcessRequest called directly; arguments include strings that need URL/JSON/YAML escaping (in values, ids and location names); the histories include the one-parameter operations admin/create, clear, delete, size and rules/list; the direct calls are also compared with a sys.System twin; plus negative cases (each required parameter missing, ill-typed parameters, a uri that is not a string, unknown URI, failing operations) through every rendering that can express them; non-trivial = the rendering is not the direct call and an argument needs escaping, or the case is negative; distinct by (seed, history, request index, rendering)",
 		Floor: [2]int{300, 3000},
 		Assumptions: []string{"generated request ids and timing fields are normalised away", "`set` of /api/loc/parents is rendered in its canonical JSON-string form"},
 		Stages: []Stage{{Name: "encodings", Pkg: "./mon/c18", Procs: 2, Batches: [2]int{4, 8}, TimeoutS: [2]int{900, 3600}}},
